@@ -181,6 +181,7 @@ pub struct ObsSlot {
     pub created_round: u32,
     pub pinned: bool,
     pub smuggled: Option<(usize, bool, u32, u8)>,
+    pub state_unsub_after_gone: bool,
 }
 
 #[derive(Clone, Debug, PartialEq, Eq)]
@@ -860,6 +861,9 @@ impl World {
         }
         for (k, s) in obs.iter().enumerate() {
             if s.handles.is_empty() {
+                if self.cfg.mon.c10 && o.state_unsubscribe && !s.subs.is_empty() && !s.state_unsub_after_gone {
+                    v.push(Action::StateUnsubscribe(k, 0));
+                }
                 continue;
             }
             if o.subscribe && s.subs.len() < self.cfg.max_subs && (s.st != OSt::Dead || self.cfg.mon.c10) && (!o.subscribe_smuggled_only || s.smuggled.is_some()) {
@@ -872,6 +876,9 @@ impl World {
                         if o.state_unsubscribe {
                             v.push(Action::StateUnsubscribe(k, j));
                         }
+                    } else if self.cfg.mon.c10 && o.state_unsubscribe && s.st == OSt::Dead && j == 0 && !s.state_unsub_after_gone {
+                        // the observer is gone: must be a silent no-op
+                        v.push(Action::StateUnsubscribe(k, j));
                     }
                 }
                 if self.cfg.mon.c10 {
@@ -901,7 +908,7 @@ impl World {
     }
 
     fn push_observer(&mut self, o: Observer<SV>, node: usize, pinned: bool, smuggled: Option<(usize, bool, u32, u8)>) {
-        self.obs.borrow_mut().push(ObsSlot { handles: vec![o], node, st: OSt::Created, last: None, subs: vec![], created_round: self.sh.round.get(), pinned, smuggled });
+        self.obs.borrow_mut().push(ObsSlot { handles: vec![o], node, st: OSt::Created, last: None, subs: vec![], created_round: self.sh.round.get(), pinned, smuggled, state_unsub_after_gone: false });
         self.dirty = true;
     }
 
@@ -1049,6 +1056,7 @@ impl World {
                 self.state.unsubscribe(tok);
                 if st == OSt::Dead {
                     cover("state-unsubscribe-after-observer-gone");
+                    self.obs.borrow_mut()[*k].state_unsub_after_gone = true;
                 }
                 self.obs.borrow_mut()[*k].subs[*j].active = false;
                 self.dirty = true;
